@@ -148,6 +148,16 @@ fn random_plain(src: &mut Src, obs: &mut Obs) -> Res {
     random(src, obs, &cfg)
 }
 
+/// the plain profile with regular-expression tests as the commonest atom of a filter: which children a
+/// `match` / `search` test keeps is part of what the filter selector contributes
+fn random_regex_heavy(src: &mut Src, obs: &mut Obs) -> Res {
+    let mut cfg = GenCfg::plain();
+    cfg.regex = true;
+    cfg.regex_weight = 90;
+    obs.label("regex-heavy");
+    random(src, obs, &cfg)
+}
+
 fn random_special(src: &mut Src, obs: &mut Obs) -> Res {
     let mut cfg = GenCfg::plain();
     cfg.special_keys = true;
@@ -353,6 +363,7 @@ pub fn prop() -> Prop {
                     len: 1000,
                 },
             },
+            Sub { name: "random-regex-heavy", kind: Kind::Random { f: random_regex_heavy, quick: 48_000, thorough: 960_000, len: 1000 } },
             Sub { name: "random-wide-compare", kind: Kind::Random { f: random_wide_compare, quick: 8_000, thorough: 160_000, len: 900 } },
             Sub {
                 name: "random-special",
